@@ -58,7 +58,7 @@ def check(tier):
     ck = core.Check("C19", tier)
     variants = ["cont", "cont-small", "cont++", "cont++-small"]
     exes = build.build_many(variants)
-    per_variant = 24000 if tier == "quick" else 400000
+    per_variant = 24000 if tier == "quick" else 3000000
     max_ops = 300 if tier == "quick" else 400
     shards = 4
     jobs = []
